@@ -317,16 +317,24 @@ func c07Structured(emit func(c07Case)) {
 
 // c07Boundary: magnitudes named by the property, amounts placed on every rounding edge of amount*OV/V.
 func c07Boundary(thorough bool, emit func(c07Case)) {
-	mags := []*big.Int{pow10(18), new(big.Int).Mul(big.NewInt(2), pow10(18)), new(big.Int).Mul(big.NewInt(4), pow10(18)), new(big.Int).Mul(big.NewInt(9), pow10(18)), pow10(19), new(big.Int).Mul(big.NewInt(3), pow10(19)), pow10(20), pow10(24), pow10(30)}
-	durs := []int64{2, 1000}
+	mags := []*big.Int{pow10(15), pow10(16), new(big.Int).Mul(big.NewInt(3), pow10(16)), pow10(17), new(big.Int).Mul(big.NewInt(7), pow10(17)), pow10(18), new(big.Int).Mul(big.NewInt(2), pow10(18)), new(big.Int).Mul(big.NewInt(4), pow10(18)), new(big.Int).Mul(big.NewInt(9), pow10(18)), pow10(19), new(big.Int).Mul(big.NewInt(3), pow10(19)), pow10(20), pow10(24), pow10(30)}
+	// 3, 7, 11 give time ratios that are not finite 18-decimal fractions (x/1000 always is)
+	durs := []int64{2, 3, 7, 1000}
 	if thorough {
-		durs = []int64{2, 3, 7, 1000}
+		durs = []int64{2, 3, 7, 11, 13, 1000, 86400}
 	}
 	for _, m := range mags {
 		for off := int64(-3); off <= 3; off++ {
 			ov := new(big.Int).Add(m, big.NewInt(off))
 			for _, dur := range durs {
-				for _, el := range elapsedGrid(dur) {
+				els := elapsedGrid(dur)
+				if dur <= 13 {
+					els = nil
+					for e := int64(0); e < dur; e++ {
+						els = append(els, e)
+					}
+				}
+				for _, el := range els {
 					if el < 0 {
 						continue
 					}
